@@ -4,19 +4,22 @@ import ScenicModel.Model.Overrides
 # C14 (part 4): negation witnesses
 
 Each hypothesis of the theorems in `C14Overrides/C14Stale/C14Revert` is necessary: a concrete run of the
-model violating the conclusion when the hypothesis fails.  The first three configurations are those of
-the source as found (before the repairs proposed in notes/fixes/C14-*.diff); the event sequences are the
-ones the real programs of the regression corpus (tools/props/c14.py, `REGRESSION`) produce.
+model violating the conclusion when the hypothesis fails.  `cfgAsFound` is the configuration of the source
+before the repairs 84308c42 / 4fbf0f54 (notes/fixes/C14-finally-order.diff, C14-stale-overrides.diff) were
+applied, `cfgRepaired` the one after them; the event sequences are the ones the real programs of the
+regression corpus (tools/props/c14.py, `REGRESSION`) produce.
 -/
 namespace Scenic.C14
 open Scenic.Overrides
 
-/-- the `finally` block as found: proxies are disabled *before* the running scenarios are stopped -/
+/-- the `finally` block before repair 84308c42: proxies are disabled *before* the running scenarios are stopped -/
 def orderAsFound : List Step := [.destroy, .disableProxies, .stopBehaviors, .stopScenarios, .endSimulation]
 def orderRepaired : List Step := [.destroy, .stopBehaviors, .stopScenarios, .disableProxies, .endSimulation]
 
-def cfgAsFound : Cfg := { order := orderAsFound, merge := .keepOldest, stopClears := false, agentsEarly := false }
-def cfgRepaired : Cfg := { order := orderRepaired, merge := .keepOldest, stopClears := true, agentsEarly := true }
+def cfgAsFound : Cfg :=
+  { order := orderAsFound, merge := .keepOldest, stopClears := false, agentsEarly := false, destroyGuarded := false }
+def cfgRepaired : Cfg :=
+  { order := orderRepaired, merge := .keepOldest, stopClears := true, agentsEarly := true, destroyGuarded := false }
 
 /-- `ego.foo = 5; do Sub()` where Sub's setup does `override ego with foo 1`, then an exception:
     the sub-scenario is stopped after the proxy has been removed and "restores" 5 into the scene. -/
